@@ -291,6 +291,8 @@ func (s *Schema) control() (err error) {
 	for fn, fi := range s.ObjectIndex.Fields {
 		if fd, ok := s.Fields[fn]; !ok {
 			return fmt.Errorf("%w: index on unknown field %s", ErrMalformedSchema, fn)
+		} else if fi.Name != fn {
+			return fmt.Errorf("%w: index of field %s is named after field %s", ErrMalformedSchema, fn, fi.Name)
 		} else if cast, ok := fd.castable(); !ok || cast != fi.Cast {
 			return fmt.Errorf("%w: index of field %s (%s) is made of %s", ErrMalformedSchema, fn, fd.Type, fi.Cast)
 		}
